@@ -461,7 +461,7 @@ func (g *G) attrGroups() {
 
 // metadata adds simple generic metadata: tuples, strings, value-as-metadata, named metadata and attachments.
 func (g *G) metadata() {
-	if !g.cfg.Big && (!g.chance("md", 1, 2) || g.off("metadata")) {
+	if !g.cfg.Big && !g.cfg.ForceMD && (!g.chance("md", 1, 2) || g.off("metadata")) {
 		return
 	}
 	n := g.rng("nmd", 1, 5)
